@@ -20,13 +20,14 @@ def exposed(r, spell=None):
     return (spell or {}).get(r["al"], r["al"]) if r["al"] != "none" else r["n"]
 
 
-def ref_text(prog, ref, qualify=None, spell=None):
+def ref_text(prog, ref, qualify=None, spell=None, scalar_form="plain"):
     c = ref["c"]
     if ref["r"] == 0:
         return c
     if ref["r"] == 8:
-        # a scalar subquery over a table of its own
-        return "(select max(zc) from %szt)" % (qualify + "." if qualify else "")
+        # a scalar subquery over a table of its own (bare, or as the argument of a function)
+        q = "(select max(zc) from %szt)" % (qualify + "." if qualify else "")
+        return q if scalar_form == "plain" else "coalesce(%s, 0)" % q if scalar_form == "func" else "coalesce((%s), 0)" % q
     if ref["r"] == 9:
         # a qualifier that names nothing in scope is taken for a table name: textual qualification qualifies it like one
         return (qualify + "." if qualify else "") + "zz." + c
@@ -116,7 +117,7 @@ def expr(form, refs):
 
 
 def render(prog, form1="plain", form2="arith", as_kw=True, qualify=None, join="join", paren_source=False, spell=None, cte=False,
-           inner_join=None, where_sub=None, merge_insert=True):
+           inner_join=None, where_sub=None, merge_insert=True, scalar_form="plain"):
     """spell: statement-local alias -> the text it is written as (renaming of statement-local names, C08);
     cte: derived tables are written as CTEs and read without an alias; inner_join: the FROM of every derived table joins one
     more table, read under that name (inner columns are then qualified with the inner table's bare name)"""
@@ -150,7 +151,7 @@ def render(prog, form1="plain", form2="arith", as_kw=True, qualify=None, join="j
             fr.append(" %s %s on 1 = 1" % (join, t))
     its = []
     for it in prog["items"]:
-        refs = [ref_text(prog, x, qualify, sp) for x in it["refs"]]
+        refs = [ref_text(prog, x, qualify, sp, scalar_form) for x in it["refs"]]
         e = expr(form1 if len(refs) <= 1 else form2, refs)
         if len(refs) == 1 and it["al"] == "none":
             e = refs[0]          # an un-aliased single reference keeps its own name only when written plainly
